@@ -416,6 +416,12 @@ async fn expect_event(p: &mut aldrin::low_level::Proxy, id: u32, val: u32) -> Re
 pub enum ChanVariant {
     /// producer sends n tagged items, consumer reads m of them and then closes
     Stream,
+    /// as Stream, but the producer also polls `receiver_closed()` before every send (as one arm
+    /// of a select would)
+    StreamWatchClosed,
+    /// ping-pong: the consumer acknowledges every item out of band, the producer waits for the
+    /// acknowledgement, polls `receiver_closed()` once and sends the next item
+    PingPongWatchClosed,
     /// the receiver end is closed before the sender claims it
     CloseBeforeClaim,
     /// two claimants race for the same unclaimed end
@@ -440,6 +446,7 @@ pub fn p4_channels(t: Transport, minors: Vec<u32>, two_clients: bool, cap: u32, 
             let (ck_tx, ck_rx) = oneshot::channel::<aldrin::low_level::UnboundSender>();
             let (ck_tx2, ck_rx2) = oneshot::channel::<aldrin::low_level::UnboundSender>();
             let (fin_tx, fin_rx) = oneshot::channel::<()>();
+            let (ack_tx, mut ack_rx) = mpsc::unbounded::<u32>();
             let mut apps = Vec::new();
             // consumer creates the channel claiming the receiver, hands the sender end out
             apps.push(app("consumer", move |hs, _| {
@@ -480,6 +487,9 @@ pub fn p4_channels(t: Transport, minors: Vec<u32>, two_clients: bool, cap: u32, 
                                     return Err(format!("consumer saw item {v}, expected {next} (lost, duplicated or reordered)"));
                                 }
                                 next += 1;
+                                if variant == ChanVariant::PingPongWatchClosed {
+                                    let _ = ack_tx.unbounded_send(v);
+                                }
                             }
                             Ok(None) => {
                                 // (in the double-claim variant the winner may be the claimant that
@@ -540,6 +550,16 @@ pub fn p4_channels(t: Transport, minors: Vec<u32>, two_clients: bool, cap: u32, 
                     };
                     let mut sent = 0u32;
                     while sent < n_items {
+                        if variant == ChanVariant::PingPongWatchClosed && sent > 0 && sent <= m_read {
+                            // wait until the consumer says it has read the previous item
+                            let _ = ack_rx.next().await;
+                        }
+                        if variant == ChanVariant::StreamWatchClosed || variant == ChanVariant::PingPongWatchClosed {
+                            let closed = poll_fn(|cx| Poll::Ready(tx.poll_receiver_closed(cx).is_ready())).await;
+                            if closed {
+                                break;
+                            }
+                        }
                         match tx.send_item(sent).await {
                             Ok(()) => sent += 1,
                             Err(Error::InvalidChannel) => break, // receiver closed
